@@ -122,3 +122,63 @@ func CmsVerify(sig, content []byte, detached bool) (bool, []byte, string) {
 	out, se, err := Run(files, args...)
 	return err == nil, out, string(se)
 }
+
+// SignOpts selects the producer configuration.
+type SignOpts struct {
+	CMS        bool // openssl cms (else openssl smime)
+	NoDetach   bool
+	NoSMIMECap bool
+	NoCerts    bool
+	CAdES      bool // cms only
+	Receipt    bool // cms only: signed receipt request attribute
+	NoAttr     bool
+}
+
+// Name is a short label of the configuration.
+func (o SignOpts) Name() string {
+	n := "smime"
+	if o.CMS {
+		n = "cms"
+	}
+	for _, f := range []struct {
+		on bool
+		s  string
+	}{{o.NoDetach, "nodetach"}, {o.NoSMIMECap, "nosmimecap"}, {o.NoCerts, "nocerts"}, {o.CAdES, "cades"}, {o.Receipt, "receipt"}, {o.NoAttr, "noattr"}} {
+		if f.on {
+			n += "-" + f.s
+		}
+	}
+	return n
+}
+
+// Sign produces a DER signature over content with the CLI.
+func Sign(keyPEM, certPEM, content []byte, o SignOpts) ([]byte, error) {
+	cmd := "smime"
+	if o.CMS {
+		cmd = "cms"
+	}
+	args := []string{cmd, "-sign", "-binary", "-md", "sha256", "-in", "@content", "-signer", "@cert.pem", "-inkey", "@key.pem", "-outform", "DER"}
+	if o.NoDetach {
+		args = append(args, "-nodetach")
+	}
+	if o.NoSMIMECap {
+		args = append(args, "-nosmimecap")
+	}
+	if o.NoCerts {
+		args = append(args, "-nocerts")
+	}
+	if o.NoAttr {
+		args = append(args, "-noattr")
+	}
+	if o.CMS && o.CAdES {
+		args = append(args, "-cades")
+	}
+	if o.CMS && o.Receipt {
+		args = append(args, "-receipt_request_to", "verif@example.invalid")
+	}
+	out, se, err := Run(map[string][]byte{"@content": content, "@cert.pem": certPEM, "@key.pem": keyPEM}, args...)
+	if err != nil {
+		return nil, fmt.Errorf("openssl %s -sign: %v: %s", cmd, err, se)
+	}
+	return out, nil
+}
